@@ -108,6 +108,10 @@ class list_(list, metaclass=_Meta):
             return x.copy()
         if _b.isinstance(x, SymSet):
             return _list_of_symset(x)
+        if type(x).__name__ == "_MapIter" and not z3.is_int_value(z3.simplify(x.d._ty.dt.size(x.d.term))):
+            # list(d.items()/d.values()) of a dict of symbolic size (was OUT-OF-REACH): a snapshot view, to be
+            # iterated under a loop contract
+            return type(x)(x.d.copy(), None, x.mode)
         return list(x)
 
 
@@ -217,7 +221,41 @@ def abs_(x):
     return x.__abs__() if _b.isinstance(x, _SymNum) else abs(x)
 
 
+def _arbitrary_member(it, key, default):
+    """min/max(<dict or list of symbolic size>, key=f) (was OUT-OF-REACH): over-approximated by an ARBITRARY
+    member (sound for every clause that does not depend on which member is extremal); f runs once on it, so
+    an exception f can raise on some member is still explored.  Returns _NO when not applicable."""
+    c = _c()
+    if _b.isinstance(it, SymDict) and not (it._ty.ordered and z3.is_int_value(z3.simplify(it._ty.dt.size(it.term)))):
+        it._ty.assume_wf(it.term)
+        if not c.branch(it._ty.dt.size(it.term) > 0, site="member-empty"):
+            if default is not _b.object:
+                return default
+            raise ValueError("min()/max() arg is an empty sequence")
+        kt = c.fresh("member_key", it._ty.key.sort())
+        c.assume(z3.Select(it._ty.dt.dom(it.term), kt))
+        c.note_term(kt)
+        m = it._ty.key.wrap(kt)
+    elif _b.isinstance(it, SymList) and not z3.is_int_value(z3.simplify(it._len())):
+        if not c.branch(it._len() > 0, site="member-empty"):
+            if default is not _b.object:
+                return default
+            raise ValueError("min()/max() arg is an empty sequence")
+        i = c.fresh("member_idx", z3.IntSort())
+        c.assume(z3.And(i >= 0, i < it._len()))
+        c.note_term(i)
+        m = it._elem.wrap(it.term[i])
+    else:
+        return _NO
+    key(m)
+    return m
+
+
 def _pick(cmp_gt, args, key=None, default=_b.object):
+    if len(args) == 1 and key is not None:
+        r = _arbitrary_member(args[0], key, default)
+        if r is not _NO:
+            return r
     if len(args) == 1:
         it = args[0]
         if _b.isinstance(it, SymList):
